@@ -61,7 +61,7 @@ Print Assumptions C05_sites_pass_namespace.
 
 Theorem C05_sites_table_complete :
   forallb (fun c => existsb (fun f => String.eqb (fst (fst c)) (fst f) && String.eqb (snd (fst c)) (snd f))
-                            [site_func (SPortRef "" ""); site_func (SNoConn None "" ""); site_func (SFlatMember "" "");
+                            [site_func (SPortRef "" ""); site_func (SNoConn None "" ""); site_func (SNoConnMember None "" "" []); site_func (SFlatMember "" "");
                              site_func (SArrayElem "" 0); site_func (SPairMember "" "")]) Hdl21Gen.C05Sites.c05_flatname_calls = true.
 Proof. exact sites_table_complete. Qed.
 Print Assumptions C05_sites_table_complete.
